@@ -1,27 +1,12 @@
-// U-SEL: selector-matching leaf functions (C04): :nth-child arithmetic (complete), attribute operators (bounded strings).
+// U-SEL: selector-matching leaf functions (C04): attribute operators (bounded strings).
+// (:nth-child arithmetic is proved for all i32^3 in Verus, specs/U-NTH.vrs -- CBMC does not finish on the two 64-bit dividers.)
 
-//@harness nth_child_has_index_spec | complete | all (step, offset, index) in i32^3 with index > 0, loop-free | C04,C15
-//@append src/selectors_vm/ast.rs
-#[cfg(kani)]
-mod verif_kani_nth {
-    use super::*;
-    // has_index(i) <=> exists n >= 0: step*n + offset == i   (CSS An+B), for every element index i > 0; never panics/overflows
-    #[kani::proof]
-    fn nth_child_has_index_spec() {
-        let step: i32 = kani::any();
-        let offset: i32 = kani::any();
-        let index: i32 = kani::any();
-        kani::assume(index > 0);
-        let got = NthChild::new(step, offset).has_index(index);
-        // mathematical spec in i64 (no wrap): d = index - offset; step == 0 => d == 0; else d/step is a non-negative integer
-        let d = index as i64 - offset as i64;
-        let s = step as i64;
-        let spec = if s == 0 { d == 0 } else { d % s == 0 && d / s >= 0 };
-        assert!(got == spec);
-    }
-}
-
-//@harness attr_operators_vs_spec | bounded | one attribute, value <= 3 bytes, operand <= 2 bytes, all byte values, both case modes, html/non-html | C04
+//@harness attr_eq_vs_spec | bounded | one attribute, value <= 3 bytes, operand <= 2 bytes, all byte values, all 4 case modes, html/non-html | C04
+//@harness attr_prefix_vs_spec | bounded | one attribute, value <= 3 bytes, operand <= 2 bytes, all byte values, all 4 case modes, html/non-html | C04
+//@harness attr_suffix_vs_spec | bounded | one attribute, value <= 3 bytes, operand <= 2 bytes, all byte values, all 4 case modes, html/non-html | C04
+//@harness attr_dash_vs_spec | bounded | one attribute, value <= 3 bytes, operand <= 2 bytes, all byte values, all 4 case modes, html/non-html | C04
+//@harness attr_substring_vs_spec | bounded | one attribute, value <= 3 bytes, operand <= 2 bytes, all byte values, all 4 case modes, html/non-html | C04
+//@harness attr_word_vs_spec | bounded | one attribute, value <= 3 bytes, operand <= 2 bytes, all byte values, all 4 case modes, html/non-html | C04
 //@harness attr_find_case_insensitive_first | bounded | two attributes with 1-byte names, all byte values | C04,C16
 //@append src/selectors_vm/attribute_matcher.rs
 #[cfg(kani)]
@@ -34,55 +19,69 @@ mod verif_kani_attr {
         while i < a.len() { let (x, y) = if ci { (a[i].to_ascii_lowercase(), b[i].to_ascii_lowercase()) } else { (a[i], b[i]) }; if x != y { return false; } i += 1; }
         true
     }
-    #[kani::proof]
-    #[kani::unwind(6)]
-    fn attr_operators_vs_spec() {
+    struct Fix { input: [u8; 5], vl: usize, o: [u8; 2], ol: usize, ci: bool, is_html: bool, cs: ParsedCaseSensitivity }
+    fn fix() -> Fix {
         // input = 'a' '=' v0 v1 v2 ; attribute name = [0,1), value = [2, 2+vl)
         let v: [u8; 3] = kani::any();
         let vl: usize = kani::any();
         kani::assume(vl <= 3);
-        let input = [b'a', b'=', v[0], v[1], v[2]];
-        let attrs: AttributeBuffer = vec![AttributeOutline { name: Range { start: 0, end: 1 }, value: Range { start: 2, end: 2 + vl }, raw_range: Range { start: 0, end: 2 + vl } }];
-        let is_html: bool = kani::any();
-        let m = AttributeMatcher::new(Bytes::new(&input), &attrs, if is_html { Namespace::Html } else { Namespace::Svg });
         let o: [u8; 2] = kani::any();
         let ol: usize = kani::any();
         kani::assume(ol <= 2);
+        let is_html: bool = kani::any();
         let mode: u8 = kani::any();
         let cs = match mode % 4 { 0 => ParsedCaseSensitivity::CaseSensitive, 1 => ParsedCaseSensitivity::AsciiCaseInsensitive,
                                   2 => ParsedCaseSensitivity::AsciiCaseInsensitiveIfInHtmlElementInHtmlDocument, _ => ParsedCaseSensitivity::ExplicitCaseSensitive };
         let ci = match mode % 4 { 1 => true, 2 => is_html, _ => false };
-        let operand = AttrExprOperands { name: b"a".to_vec().into(), value: o[..ol].to_vec().into(), case_sensitivity: cs };
-        let val = &input[2..2 + vl];
-        let op = &o[..ol];
-        // [a=v]
-        assert!(m.attr_eq(&operand) == eq_cs(val, op, ci));
-        // [a^=v]: non-empty value starting with v   (an empty operand matches nothing per Selectors-4; the code requires a non-empty value)
-        let prefix = vl >= ol && eq_cs(&val[..ol], op, ci);
-        assert!(m.has_attr_with_prefix(&operand) == (vl > 0 && prefix));
-        // [a$=v]
-        let suffix = vl >= ol && eq_cs(&val[vl - ol..], op, ci);
-        assert!(m.has_attr_with_suffix(&operand) == (vl > 0 && suffix));
-        // [a|=v]: exactly v, or v followed by '-'
-        let dash = eq_cs(val, op, ci) || (vl > ol && val[ol] == b'-' && eq_cs(&val[..ol], op, ci));
-        assert!(m.has_dash_matching_attr(&operand) == dash);
-        // [a*=v]: v non-empty and a substring
+        Fix { input: [b'a', b'=', v[0], v[1], v[2]], vl, o, ol, ci, is_html, cs }
+    }
+    macro_rules! with_matcher {
+        ($f:ident, $m:ident, $operand:ident, $val:ident, $op:ident, $body:block) => {{
+            let $f = fix();
+            let attrs: AttributeBuffer = vec![AttributeOutline { name: Range { start: 0, end: 1 }, value: Range { start: 2, end: 2 + $f.vl }, raw_range: Range { start: 0, end: 2 + $f.vl } }];
+            let $m = AttributeMatcher::new(Bytes::new(&$f.input), &attrs, if $f.is_html { Namespace::Html } else { Namespace::Svg });
+            let $operand = AttrExprOperands { name: b"a".to_vec().into(), value: $f.o[..$f.ol].to_vec().into(), case_sensitivity: $f.cs };
+            let $val = &$f.input[2..2 + $f.vl];
+            let $op = &$f.o[..$f.ol];
+            $body
+        }};
+    }
+    // [a=v]
+    #[kani::proof] #[kani::unwind(6)]
+    fn attr_eq_vs_spec() { with_matcher!(f, m, operand, val, op, { assert!(m.attr_eq(&operand) == eq_cs(val, op, f.ci)); assert!(m.has_attribute(b"a") && !m.has_attribute(b"b")); }) }
+    // [a^=v]: non-empty value starting with v
+    #[kani::proof] #[kani::unwind(6)]
+    fn attr_prefix_vs_spec() { with_matcher!(f, m, operand, val, op, {
+        let prefix = f.vl >= f.ol && eq_cs(&val[..f.ol], op, f.ci);
+        assert!(m.has_attr_with_prefix(&operand) == (f.vl > 0 && prefix)); }) }
+    // [a$=v]
+    #[kani::proof] #[kani::unwind(6)]
+    fn attr_suffix_vs_spec() { with_matcher!(f, m, operand, val, op, {
+        let suffix = f.vl >= f.ol && eq_cs(&val[f.vl - f.ol..], op, f.ci);
+        assert!(m.has_attr_with_suffix(&operand) == (f.vl > 0 && suffix)); }) }
+    // [a|=v]: exactly v, or v followed by '-'
+    #[kani::proof] #[kani::unwind(6)]
+    fn attr_dash_vs_spec() { with_matcher!(f, m, operand, val, op, {
+        let dash = eq_cs(val, op, f.ci) || (f.vl > f.ol && val[f.ol] == b'-' && eq_cs(&val[..f.ol], op, f.ci));
+        assert!(m.has_dash_matching_attr(&operand) == dash); }) }
+    // [a*=v]: v non-empty and a substring
+    #[kani::proof] #[kani::unwind(6)]
+    fn attr_substring_vs_spec() { with_matcher!(f, m, operand, val, op, {
         let mut sub = false;
         let mut i = 0;
-        while ol > 0 && i + ol <= vl { if eq_cs(&val[i..i + ol], op, ci) { sub = true; } i += 1; }
-        assert!(m.has_attr_with_substring(&operand) == sub);
-        // [a~=v]: one of the whitespace-separated words equals v
+        while f.ol > 0 && i + f.ol <= f.vl { if eq_cs(&val[i..i + f.ol], op, f.ci) { sub = true; } i += 1; }
+        assert!(m.has_attr_with_substring(&operand) == sub); }) }
+    // [a~=v]: one of the whitespace-separated words equals v
+    #[kani::proof] #[kani::unwind(6)]
+    fn attr_word_vs_spec() { with_matcher!(f, m, operand, val, op, {
         let mut word = false;
         let mut start = 0;
         let mut j = 0;
-        while j <= vl {
-            if j == vl || is_attr_whitespace(val[j]) { if eq_cs(&val[start..j], op, ci) { word = true; } start = j + 1; }
+        while j <= f.vl {
+            if j == f.vl || is_attr_whitespace(val[j]) { if eq_cs(&val[start..j], op, f.ci) { word = true; } start = j + 1; }
             j += 1;
         }
-        assert!(m.matches_splitted_by_whitespace(&operand) == word);
-        assert!(m.has_attribute(b"a"));
-        assert!(!m.has_attribute(b"b"));
-    }
+        assert!(m.matches_splitted_by_whitespace(&operand) == word); }) }
     #[kani::proof]
     #[kani::unwind(6)]
     fn attr_find_case_insensitive_first() {
